@@ -22,17 +22,19 @@ import (
 // ---- C10: ExchangeServer answers any request with bounded work and only true store data ----
 
 type c10P struct {
-	Tail   uint64 `json:"tail"`
-	Head   uint64 `json:"head"`
-	Kind   string `json:"kind"` // range | hash | raw
-	Origin uint64 `json:"origin,omitempty"`
-	Amount uint64 `json:"amount,omitempty"`
-	Hash   string `json:"hash,omitempty"` // present | pruned | absent | empty | heightkey | big
-	HashH  uint64 `json:"hash_h,omitempty"`
-	Raw    string `json:"raw,omitempty"` // truncated | oversized | garbage | noclose | empty | bytes
-	Seed   int64  `json:"seed,omitempty"`
-	Prior  int    `json:"prior,omitempty"` // ordinary range requests served by the same server before the probe (cross-request state)
-	Grow   int    `json:"grow,omitempty"`  // the store grows by this many headers right after the server's first Head() call of the probe
+	Tail    uint64 `json:"tail"`
+	Head    uint64 `json:"head"`
+	Kind    string `json:"kind"` // range | hash | raw
+	Origin  uint64 `json:"origin,omitempty"`
+	Amount  uint64 `json:"amount,omitempty"`
+	Hash    string `json:"hash,omitempty"` // present | pruned | absent | empty | heightkey | big
+	HashH   uint64 `json:"hash_h,omitempty"`
+	Raw     string `json:"raw,omitempty"` // truncated | oversized | garbage | noclose | empty | bytes
+	Seed    int64  `json:"seed,omitempty"`
+	Prior   int    `json:"prior,omitempty"`   // ordinary range requests served by the same server before the probe (cross-request state)
+	Grow    int    `json:"grow,omitempty"`    // the store grows by this many headers right after the server's first Head() call of the probe
+	GrowAt  string `json:"grow_at,omitempty"` // "" = after the first Head() | hasat = after the first HasAt()
+	Metrics bool   `json:"metrics,omitempty"` // the server is built WithMetrics
 }
 
 const (
@@ -78,6 +80,20 @@ func TestC10(t *testing.T) {
 			mon.Emit(r, "request", c10P{Tail: T, Head: Hd, Kind: "hash", Hash: hk, HashH: mid, Amount: 0, Prior: 3}, "request")
 		}
 	}
+	// a server with metrics switched on answers the same kinds of requests
+	for _, sh := range shapes[:2] {
+		T, Hd := sh[0], sh[1]
+		mid := (T + Hd) / 2
+		for _, hk := range []string{"present", "pruned", "absent", "empty"} {
+			mon.Emit(r, "request", c10P{Tail: T, Head: Hd, Kind: "hash", Hash: hk, HashH: mid, Amount: 1, Metrics: true}, "request")
+		}
+		for _, o := range []uint64{0, T - 1, T, mid, Hd, Hd + 1} {
+			for _, a := range []uint64{0, 1, 5, 65} {
+				mon.Emit(r, "request", c10P{Tail: T, Head: Hd, Kind: "range", Origin: o, Amount: a, Metrics: true}, "request")
+			}
+		}
+		mon.Emit(r, "request", c10P{Tail: T, Head: Hd, Kind: "raw", Raw: "garbage", Metrics: true}, "request")
+	}
 	// the store grows while a request around its head is being handled
 	for _, sh := range shapes[:2] {
 		T, Hd := sh[0], sh[1]
@@ -85,6 +101,7 @@ func TestC10(t *testing.T) {
 			for _, a := range []uint64{1, 2, 5, 64, 65} {
 				for _, g := range []int{1, 100} {
 					mon.Emit(r, "request", c10P{Tail: T, Head: Hd, Kind: "range", Origin: o, Amount: a, Grow: g}, "request")
+					mon.Emit(r, "request", c10P{Tail: T, Head: Hd, Kind: "range", Origin: o, Amount: a, Grow: g, GrowAt: "hasat"}, "request")
 				}
 			}
 		}
@@ -116,7 +133,11 @@ func c10Run(c *mon.Case, p c10P) {
 			c.T.Fatalf("simnet: %v", err)
 		}
 		defer w.Close()
-		srv := newServer(c, w, 0, se.rs, p2p.WithReadDeadline[p2p.ServerParameters](c10Read), p2p.WithWriteDeadline[p2p.ServerParameters](c10Write), p2p.WithRequestTimeout[p2p.ServerParameters](c10Req))
+		sopts := []p2p.Option[p2p.ServerParameters]{p2p.WithReadDeadline[p2p.ServerParameters](c10Read), p2p.WithWriteDeadline[p2p.ServerParameters](c10Write), p2p.WithRequestTimeout[p2p.ServerParameters](c10Req)}
+		if p.Metrics {
+			sopts = append(sopts, p2p.WithMetrics[p2p.ServerParameters]())
+		}
+		srv := newServer(c, w, 0, se.rs, sopts...)
 		defer func() { _ = srv.Stop(context.Background()) }()
 		if err := w.Connect(1, 0); err != nil {
 			c.T.Fatalf("connect: %v", err)
@@ -135,12 +156,17 @@ func c10Run(c *mon.Case, p c10P) {
 		se.d.ResetReads()
 		oldHead := se.head
 		if p.Grow > 0 {
-			se.rs.OnHead = func() {
+			grow := func() {
 				gctx, gc := context.WithTimeout(context.Background(), time.Minute)
 				defer gc()
 				_ = se.st.Append(gctx, chain.Range(oldHead+1, oldHead+1+uint64(p.Grow))...)
 				_ = se.st.Sync(gctx)
 				c.Count("store_grew_during_request", 1)
+			}
+			if p.GrowAt == "hasat" {
+				se.rs.OnHasAt = grow
+			} else {
+				se.rs.OnHead = grow
 			}
 		}
 
@@ -168,7 +194,7 @@ func c10Run(c *mon.Case, p c10P) {
 			case "absent":
 				wantHash = bytes.Repeat([]byte{0xCD}, 32)
 			case "empty":
-				wantHash = nil
+				wantHash = []byte{} // on the wire: the hash field is present and empty (12 00), not absent
 			case "heightkey":
 				wantHash = []byte{0x10 + byte(p.Tail%5)} // its key string is all digits: collides with a height-index key
 				if p.Tail > 1 {
@@ -245,8 +271,11 @@ func c10Run(c *mon.Case, p c10P) {
 		if p.Prior > 0 {
 			class += " after-prior"
 		}
+		if p.Metrics {
+			class += " metrics"
+		}
 		if p.Grow > 0 {
-			class += " store-grows"
+			class += " store-grows" + p.GrowAt
 			se.head0, se.head = oldHead, oldHead+uint64(p.Grow) // content may come from the grown store, the cut from the old head
 		}
 		c.Class("tail=%d %s => %s", p.Tail, class, kind)
